@@ -444,6 +444,8 @@ void execute_output(const Plan &plan, Verdict &v, bool c17) {
     cfg.inbuf = (int) clampl(plan.k("inbuf", 256), 64, 600);
     cfg.wr_mode = (int) (plan.k("wr_mode", 0) & 3);
     cfg.flush_err = (int) (plan.k("flush_err", 0) & 1);
+    cfg.with_flush = plan.k("no_flush_cb", 0) == 0;   // a transport without a flush callback: the bytes must be the same, no flush can be seen
+    if (!cfg.with_flush) COUNT("fault_no_flush_callback_installed");
     if (cfg.wr_mode) COUNT("fault_write_short_or_failed");
     if (cfg.flush_err) COUNT("fault_flush_failed");
     World w(cfg);
@@ -581,7 +583,7 @@ void execute_output(const Plan &plan, Verdict &v, bool c17) {
                     any = true;
                 }
                 if (any) exp += "\r\n";
-                int fl = any ? 1 : 0;
+                int fl = (any && cfg.with_flush) ? 1 : 0;
                 if (mask == 0) first_expect = exp;
                 if (m.out == exp && m.flushes == fl) matched = true;
             }
@@ -721,6 +723,7 @@ void generate_output(Rng &r, const GenOpts &g, Plan &p, bool c17) {
     p.knob["queue"] = r.range(1, 8);
     if (r.chance(1, 4)) p.knob["wr_mode"] = r.range(1, 3);
     if (r.chance(1, 8)) p.knob["flush_err"] = 1;
+    if (r.chance(1, 12)) p.knob["no_flush_cb"] = 1;
     bool lazy_sep_switch = g.avoids("failing_query_after_responder");
     long nh = r.range(1, 7);
     std::vector<int> kinds;   // 0 good query, 1 empty query ok, 2 failing query silent, 3 emits then fails, 4 pushes error and succeeds, 5 command, 6 failing command
